@@ -119,16 +119,26 @@ func checkLedger(own, tier string) int {
 		nh = 0
 	}
 	r.Gate("block_transitions", nh*blocks/2)
-	parallel(nh, 8, func(i int) {
+	// plus histories in which every delegator leaves the delegation pool while a reward withdrawal is pending
+	// (the pool is empty in the block in which the withdrawal matures)
+	drained := 0
+	if nh > 0 {
+		drained = tierN(tier, 2, 8)
+	}
+	parallel(nh+drained, 8, func(i int) {
 		hseed := seed*1000 + int64(i)
 		fr := int64(1)
-		if i%3 == 1 {
+		if i%3 == 1 && i < nh {
 			fr = 0
 		}
 		params := world.Params{Frankenstein: fr, NumCandidates: 3, NumEthUsers: 3, TopValidators: 5, ChainID: fmt.Sprintf("OneLedger-%s-%d", strings.ToLower(own), hseed)}
 		w0, _ := world.New(params)
 		lm := newLedgerMonitor(r, own, w0, hseed)
 		cfg := drive.Cfg{Tag: strings.ToLower(own), Seed: hseed, Blocks: blocks, Params: params, Scripts: allScripts, Scout: true, Jumps: true, Absents: true, Honest: true}
+		if i >= nh {
+			cfg.Scripts = []string{"delegation-drain", "transfers", "valrewards"}
+			cfg.Jumps = i%2 == 1
+		}
 		cfg.OnBlock = func(run *hist.Runner, blk *hist.Block) bool {
 			changed := len(blk.Txs) > 0
 			r.Case(fmt.Sprintf("%d/%d/%s", hseed, blk.H, blk.Commit.AppHash), changed)
